@@ -68,7 +68,7 @@ def interop_b(args):
                     try:
                         if ser == "compact":
                             tok = R.jws_compact(octets, payload, alg, jwk, b64=not raw)
-                            o = (rfc7797 if raw else jws).deserialize_compact(tok, pub, algorithms=[alg])
+                            o = (rfc7797 if raw else jws).deserialize_compact(J.F(tok), pub, algorithms=[alg])
                             got_p, got_h = o.payload, o.protected
                         else:
                             tok = R.jws_flattened(octets, None, payload, alg, jwk, b64=not raw) if ser == "flattened" \
@@ -97,7 +97,7 @@ def rfc_vectors(ctx: Ctx) -> int:
             continue
         alg = t["protected"]["alg"]
         try:
-            o = jws.deserialize_compact(t["compact"], J.fresh_jkey(pubj), algorithms=[alg])
+            o = jws.deserialize_compact(J.F(t["compact"]), J.fresh_jkey(pubj), algorithms=[alg])
             if o.payload != payload:
                 ctx.violation(f"jwswire:rfc7520 {t['name']} payload differs", {"vector": t["name"]})
         except Exception as e:  # noqa
